@@ -140,7 +140,7 @@ func Pool() []Block {
 		})},
 		// a path whose first segment is a parameter; a Path body reached through a chain of type
 		// references; Path properties whose schema is a user type (integer, float, string)
-		{Name: "H_rootp", Kind: "http", Defines: []string{"path:/{tenant}"}, Nodes: one(func() *Node {
+		{Name: "H_rootp", Kind: "http", Defines: []string{"path:/{tenant}", "tagentry:@_7Btenant_7D"}, Nodes: one(func() *Node {
 			return N("URL", "/{tenant}/users").WithParen().WithKids(N("GET").WithKids(N("200", "any")))
 		})},
 		{Name: "T_pk2", Kind: "type", Defines: []string{"@pk2"}, Nodes: one(func() *Node {
